@@ -92,8 +92,9 @@ class ParserCore(Ctx):
 
     def _initialize_caches(self) -> None:
         self._furthest_exception = None
+        # NOTE: a floor keeps packrat memoization effective for texts of very few lines
         self._memos: MemoCache = BoundedDict(
-            int(max(1.0, self.config.perlinememos) * self.cursor.linecount)
+            max(1024, int(max(1.0, self.config.perlinememos) * self.cursor.linecount))
         )
         self._results: MemoCache = {}
         self.states = ParseStateStack(cursor=self.input.newcursor())
